@@ -517,6 +517,13 @@ func (c *Cluster) hOffsetFetch(b *Broker, r *Request, act *Action) map[string]an
 	var topics []any
 	emit := func(name string, pids []int32) {
 		var parts []any
+		if c.ReverseOffsetFetchOrder {
+			rev := make([]int32, len(pids))
+			for i, pid := range pids {
+				rev[len(pids)-1-i] = pid
+			}
+			pids = rev
+		}
 		for _, pid := range pids {
 			resp := map[string]any{"PartitionIndex": int64(pid), "CommittedOffset": int64(-1), "ComittedLeaderEpoch": int64(-1), "Metadata": "", "ErrorCode": int64(0)}
 			switch {
